@@ -36,11 +36,16 @@ def run(tier):
     # several inputs per driver process, longest first: a result must not depend on the lengths handled before
     ng = min(vlib.NCPU, max(1, len(inputs) // 3))
     groups = [inputs[i::ng] for i in range(ng)]
+    # the groups see different numbers of processors (all, 3, 7, 1, 5): a relation must hold whatever a parallelised
+    # implementation makes of that
+    procs = ["3", "7", None, "1", "5"]
+    gprocs = {g[0]["id"]: procs[gi % len(procs)] for gi, g in enumerate(groups)}
     def one(grp):
         jp = os.path.join(tmp, "j%d.json" % grp[0]["id"]); op = os.path.join(tmp, "o%d.ndjson" % grp[0]["id"])
         with open(jp, "w") as fh:
             json.dump({"rows": rows, "inputs": grp}, fh)
-        p = vlib.run_bin(hz, ["symmetry", jp, op], timeout=6000)
+        gp = gprocs[grp[0]["id"]]
+        p = vlib.run_bin(hz, ["symmetry", jp, op], timeout=6000, env={"GOMAXPROCS": gp} if gp else None)
         if p.returncode != 0:
             raise vlib.InfraError("hz symmetry failed: " + (p.stderr or "")[-800:])
         return vlib.read_ndjson(op)
@@ -60,10 +65,11 @@ def run(tier):
     run.sample({"sym_event": events[len(events) // 2]})
     byid = {i["id"]: i for i in inputs}
     prefix = {g[k]["id"]: g[:k] for g in groups for k in range(len(g))}
+    gof = {x["id"]: gprocs[g[0]["id"]] for g in groups for x in g}
     for e in rej:
         run.violation({"kind": "symmetry", "test": e["t"], "tau": e["tau"], "param": e["param"], "taup": e["taup"], "n": e["n"], "mode": e["mode"]},
                       {"cmd": "symmetry", "rows": [x for x in rows if x["t"] == e["t"] and x["tau"] == e["tau"]], "input": byid[e["id"]],
-                       "before_in_same_process": prefix.get(e["id"], []), "all_rows": rows, "event": e})
+                       "before_in_same_process": prefix.get(e["id"], []), "all_rows": rows, "gomaxprocs": gof.get(e["id"]), "event": e})
     run.rule = ("model: every relation of the table checked on the integer summaries of all sequences of 8..10 (12) bits (all rotation amounts, a block rotation, a complemented tail); "
                 "code: pairs (x, tau x) for every claimed table entry x documented parameters, every rotation amount at n = 100/128/131, rotation amounts {1, 7, m-1, n/2, n-1, random} "
                 "and random block permutations / tail contents up to 10^6 bits; relation checked to 1e-9")
@@ -80,7 +86,7 @@ def replay(path):
     with open(jp, "w") as fh:
         # the inputs the process had handled before (with the full table), then the input itself
         json.dump({"rows": rp.get("all_rows") or rp["rows"], "inputs": rp.get("before_in_same_process", []) + [rp["input"]]}, fh)
-    vlib.run_bin(hz, ["symmetry", jp, op], timeout=6000)
+    vlib.run_bin(hz, ["symmetry", jp, op], timeout=6000, env={"GOMAXPROCS": rp["gomaxprocs"]} if rp.get("gomaxprocs") else None)
     ev0 = rp["event"]
     for e in vlib.read_ndjson(op):
         if e["id"] == ev0["id"] and e["t"] == ev0["t"] and e["tau"] == ev0["tau"] and e["param"] == ev0["param"] and e["taup"] == ev0["taup"] and bool(e.get("bytes")) == bool(ev0.get("bytes")):
